@@ -17,8 +17,8 @@ def judge(case, seq, data, exc, acc) -> None:
         return
     expect = set(T.norm_seq(seq))
     quads = case["cls"] != "triple"
-    readers = DR.R_READERS if (case["writer"] != "graph_serialize_stream" or len(seq) <= 2) \
-        else ("flat", "graph_parse")
+    readers = DR.R_READERS if (case["writer"] != "graph_serialize_stream" or len(seq) <= 2
+                               or case.get("family") == "scale") else ("flat", "graph_parse")
     for reader in readers:
         try:
             evs = DR.r_read(data, reader, quads=quads)
